@@ -634,7 +634,7 @@ impl Property for C20 {
         "fault_enumeration"
     }
     fn rule(&self) -> String {
-        "A case runs the real NetcodeServerTransport and 1-3 NetcodeClientTransports (secure authentication with generated tokens, or in some cases the Unsecure development mode of both transports) (plus reconnecting client objects with new tokens; some tokens list a silent address before the real one, so the client fails over first) on loopback UDP sockets through an in-path relay that the harness thread pumps after every transport call. Relay fault decision per (client, direction, datagram): forward / drop / duplicate / delay 1-6 ticks (hence reorder) / flip one bit / forward and replay an old datagram of that link; whole-silence periods (in some cases the datagrams for the client then arrive from another source port of the relay's host instead of being dropped, while its own datagrams may still reach the server, which a client transport must treat as silence: after timeout + 3 ticks of it the client is disconnected); application traffic on all three default channels in both directions and broadcasts; disconnects decided by RenetClient::disconnect, NetcodeClientTransport::disconnect, RenetServer::disconnect, NetcodeServerTransport::disconnect_all, by silence (timeouts) and by the receiving message layer itself while it processes a datagram (a peer sends more than the receiver's budget of the extra channel 3, or on a channel only the sender knows); reconnects; the client limit raised and lowered at run time (the transport's max_clients() reads back what was set); in some cases a local (in-process) client connected to the same RenetServer; 'aged' cases start the message layer's packet counters at 2^40 so that full slices make the largest datagrams; messages are also submitted while the handshake still runs; a second client object of a connected id may start while the first is alive; single server frames longer than the timeout; in some cases tokens expire 2 * timeout + 4 s after they were minted, so sessions outlive their token. Oracles: right after every NetcodeServerTransport::update the ids the message layer reports connected equal the ids the netcode layer holds (client_addr, connected_clients), no disconnected connection is left, and equal the ids open in the ServerEvent stream, which alternates per id and only names ids that hold a token; every message obtained over the full stack satisfies the ordered-prefix / unordered-at-most-once / unreliable-membership oracles of its session; after the faults stop and timeout + 3 s of fault-free ticks every session for which a disconnect was decided anywhere has ended on both sides, and every session that stayed healthy has obtained all reliable messages; in 'gentle' cases (no disconnect operation, no silence, at least one genuine datagram per direction forwarded in every third of the timeout) nobody is ever disconnected whatever else the relay does, and at the end every client is connected in both layers on both sides; a transport update never reports 'nothing more to read' (WouldBlock) as an error. Non-trivial: at least one corrupted or replayed datagram after a handshake completed and at least one relay fault. Distinct = hash of the decoded operation trace.".into()
+        "A case runs the real NetcodeServerTransport and 1-3 NetcodeClientTransports (secure authentication with generated tokens, or in some cases the Unsecure development mode of both transports) (plus reconnecting client objects with new tokens; some tokens list a silent address before the real one, so the client fails over first) on loopback UDP sockets through an in-path relay that the harness thread pumps after every transport call. Relay fault decision per (client, direction, datagram): forward / drop / duplicate / delay 1-6 ticks (hence reorder) / flip one bit / forward and replay an old datagram of that link; whole-silence periods (in some cases the datagrams for the client then arrive from another source port of the relay's host instead of being dropped, while its own datagrams may still reach the server, which a client transport must treat as silence: after timeout + 3 ticks of it the client is disconnected); application traffic on all three default channels in both directions and broadcasts; disconnects decided by RenetClient::disconnect, NetcodeClientTransport::disconnect, RenetServer::disconnect, NetcodeServerTransport::disconnect_all, by silence (timeouts) and by the receiving message layer itself while it processes a datagram (a peer sends more than the receiver's budget of the extra channel 3, or on a channel only the sender knows); reconnects; the client limit raised and lowered at run time (the transport's max_clients() reads back what was set); in some cases a local (in-process) client connected to the same RenetServer; 'aged' cases start the message layer's packet counters at 2^40 so that full slices make the largest datagrams; messages are also submitted while the handshake still runs; a second client object of a connected id may start while the first is alive, or two objects of one id start together and the one that got in quits at a planned tick within the other's response timeout; single server frames longer than the timeout; in some cases tokens expire 2 * timeout + 4 s after they were minted, so sessions outlive their token. Oracles: right after every NetcodeServerTransport::update the ids the message layer reports connected equal the ids the netcode layer holds (client_addr, connected_clients), no disconnected connection is left, and equal the ids open in the ServerEvent stream, which alternates per id and only names ids that hold a token; every message obtained over the full stack satisfies the ordered-prefix / unordered-at-most-once / unreliable-membership oracles of its session; after the faults stop and timeout + 3 s of fault-free ticks every session for which a disconnect was decided anywhere has ended on both sides, and every session that stayed healthy has obtained all reliable messages; in 'gentle' cases (no disconnect operation, no silence, at least one genuine datagram per direction forwarded in every third of the timeout) nobody is ever disconnected whatever else the relay does, and at the end every client is connected in both layers on both sides; a transport update never reports 'nothing more to read' (WouldBlock) as an error. Non-trivial: at least one corrupted or replayed datagram after a handshake completed and at least one relay fault. Distinct = hash of the decoded operation trace.".into()
     }
     fn assumptions(&self) -> Vec<String> {
         vec![
@@ -644,10 +644,10 @@ impl Property for C20 {
         ]
     }
     fn pbt(&self, tier: Tier) -> PbtCfg {
-        PbtCfg { cases: tier.pick(15_000, 300_000), max_len: tier.pick(1200, 5000), shrink_ms: 120_000 }
+        PbtCfg { cases: tier.pick(30_000, 300_000), max_len: tier.pick(1200, 5000), shrink_ms: 120_000 }
     }
     fn required_labels(&self) -> Vec<&'static str> {
-        vec!["relay_corrupt", "relay_replay", "relay_drop", "relay_dup", "relay_delay", "client_disconnect", "transport_disconnect", "server_disconnect", "disconnect_all", "timeout_by_silence", "gentle_case", "reconnect", "event_connected", "event_disconnected", "e2e_messages", "poison_to_client", "poison_to_server", "server_msg_layer_disconnect", "client_msg_layer_disconnect", "silent_first_address", "unsecure_authentication", "local_client", "limit_changed", "aged_counters", "unreachable_first_address", "second_object_same_id", "sent_while_connecting", "server_long_frame", "short_lived_tokens", "misrouted_during_silence", "one_way_silence"]
+        vec!["relay_corrupt", "relay_replay", "relay_drop", "relay_dup", "relay_delay", "client_disconnect", "transport_disconnect", "server_disconnect", "disconnect_all", "timeout_by_silence", "gentle_case", "reconnect", "event_connected", "event_disconnected", "e2e_messages", "poison_to_client", "poison_to_server", "server_msg_layer_disconnect", "client_msg_layer_disconnect", "silent_first_address", "unsecure_authentication", "local_client", "limit_changed", "aged_counters", "unreachable_first_address", "second_object_same_id", "sent_while_connecting", "server_long_frame", "short_lived_tokens", "misrouted_during_silence", "one_way_silence", "twin_objects_same_id"]
     }
     fn run_choices(&self, ctx: &mut Ctx) -> Outcome {
         renetcode::verif::set_rng_seed(Some(ctx.src.u16() as u64 | 1));
@@ -734,8 +734,27 @@ impl Property for C20 {
         let max_ops = ctx.tier.pick(250, 1200);
         let mut ops = 0;
         let mut serial = 0u32;
+        let mut planned_quit: Option<(usize, usize, u64)> = None;
         while !ctx.src.exhausted() && ops < max_ops {
             ops += 1;
+            if let Some((a, b, at)) = planned_quit {
+                if net.tick >= at {
+                    planned_quit = None;
+                    // whichever twin got in quits now
+                    if let Some(ci) = [a, b].into_iter().find(|&ci| net.clients[ci].client.is_connected()) {
+                        let tick = net.tick;
+                        let c = &mut net.clients[ci];
+                        let live = c.transport.disconnect_reason().is_none();
+                        c.client.disconnect();
+                        ctx.label("client_disconnect");
+                        if live && c.silence == 0 && (!c.unreachable_first || c.seen_at_front) {
+                            c.expect_dgram_up_by = Some(tick + 2);
+                        }
+                        c.disconnect_decided = true;
+                        ctx.op(&("planned_quit", ci));
+                    }
+                }
+            }
             let w: [u32; 11] = if gentle { [60, 30, 4, 0, 0, 0, 0, 0, 0, 2, 2] } else { [60, 30, 4, 3, 3, 1, 3, 3, 3, 2, 2] };
             let op = match ctx.src.weighted(&w) {
                 0 => {
@@ -947,7 +966,16 @@ impl Property for C20 {
                             if net.clients.iter().any(|c| c.id == id) {
                                 ctx.label("reconnect");
                             }
-                            net.spawn(id, 0)?;
+                            let first = net.spawn(id, 0)?;
+                            // twins: two objects of one id start together, both get challenged, one gets in; the other keeps answering its
+                            // challenge until it times out - or until the winner quits at some tick within that time
+                            if !busy && net.clients.len() < 6 && ctx.src.chance(50) {
+                                let second = net.spawn(id, 0)?;
+                                let within = (timeout_s * 1000 / tick_ms).max(4) as usize;
+                                planned_quit = Some((first, second, net.tick + 2 + ctx.src.below(within) as u64));
+                                ctx.label("second_object_same_id");
+                                ctx.label("twin_objects_same_id");
+                            }
                         }
                         Op::Spawn { id }
                     } else {
